@@ -479,11 +479,13 @@ func (x *secExec) importMnBad(w, passHex, src, kind, jTok string) string {
 	}
 	x.note(err)
 	ctlMsg, msg := strings.ToLower(ctl.Error()), strings.ToLower(err.Error())
-	if strings.Contains(msg, strings.ToLower(bad[j])) {
+	// a token counts as echoed only when the refusal contains it MORE often than the refusal of the control sentence does
+	// (the constant message itself contains list words, e.g. "work": found by the thorough tier on the unchanged tree)
+	if tok := strings.ToLower(bad[j]); strings.Count(msg, tok) > strings.Count(ctlMsg, tok) {
 		return "refused:LEAK:mistyped-word@error"
 	}
 	for _, wd := range words {
-		if len(wd) >= 4 && !strings.Contains(ctlMsg, wd) && strings.Contains(msg, wd) {
+		if len(wd) >= 4 && strings.Count(msg, wd) > strings.Count(ctlMsg, wd) {
 			return "refused:LEAK:mnemonic-word@error"
 		}
 	}
